@@ -31,7 +31,7 @@ Semantics (what the language prescribes; sources: README, compiler/src/tests/*.r
   * `&&` / `||` evaluate their right operand only when the left one does not decide; `(x) or y` evaluates y only when x is nil;
   * a failing assert, zero divisor, overflow, `get nil`, index out of range stops the program there with a failure status."""
 import z3
-from core import (Module, Fail, Unsupported, OutOfBound, NIL, ListRef, Cell, Fn, Obj, list_builtin, LIST_BUILTINS, MapRef, map_key, map_builtin, MAP_BUILTINS, is_sym, is_int, is_bool, arith, compare, negate, logic_not,
+from core import (str_builtin, STR_BUILTINS, concretize, Some, Module, Fail, Unsupported, OutOfBound, NIL, ListRef, Cell, Fn, Obj, list_builtin, LIST_BUILTINS, MapRef, map_key, map_builtin, MAP_BUILTINS, is_sym, is_int, is_bool, arith, compare, negate, logic_not,
                   logic, equals)
 
 
@@ -402,6 +402,8 @@ class Interp:
                         if o.branch(r):
                             res.append(el)
                 return ListRef(res)
+            if isinstance(ob, tuple) and ob[0] == "str" and e[2] in STR_BUILTINS:
+                return str_builtin(o, e[2], ob, args)
             if isinstance(ob, ListRef) and e[2] in LIST_BUILTINS:
                 return list_builtin(o, e[2], ob, args)
             if isinstance(ob, MapRef) and e[2] in MAP_BUILTINS:
@@ -439,6 +441,11 @@ class Interp:
         if k == "index":
             lst = self.expr(e[1], scopes, outer, me)
             idx = e[2] if isinstance(e[2], int) else self.lookup(e[2], scopes, outer).v
+            if isinstance(lst, tuple) and lst[0] == "str":
+                kk = concretize(o, idx, 0, len(lst[1]) - 1)         # the k-th CHARACTER, as a one-character string
+                if kk is None:
+                    raise Fail("index")
+                return ("str", lst[1][kk])
             if not isinstance(lst, ListRef):
                 raise Unsupported("index into a non-list")
             ln = len(lst.items)
@@ -656,7 +663,7 @@ def fmt_value(v):
     if isinstance(v, tuple) and v[0] == "big":
         return str(v[1])
     if isinstance(v, tuple) and v[0] == "list":
-        return "[" + ", ".join(fmt_value(x) for x in v[1]) + "]"
+        return "[" + ", ".join(('"%s"' % x[1]) if isinstance(x, tuple) and x[0] == "str" else fmt_value(x) for x in v[1]) + "]"
     if isinstance(v, tuple) and v[0] == "fn":
         return "<fn>"
     raise ValueError(repr(v))
